@@ -9,6 +9,9 @@ import (
 	"verifharness/internal/vkit"
 )
 
+// reescaper turns an unescaped message back into what the client wrote.
+var reescaper = strings.NewReplacer("\n", "\\n", "\t", "\\t")
+
 // Finding is one refutation found by a judge.
 type Finding struct{ Class, What string }
 
@@ -79,9 +82,14 @@ func JudgeAtLeastOnce(obs *Obs) (fs []Finding, info map[string]int) {
 					if strings.HasPrefix(v, got) || strings.HasPrefix(r.RawMessage(), got) {
 						continue // cut before or inside something a transform would have rewritten (e-mail, escape)
 					}
+					// cut inside an escape sequence: everything before the cut unescaped, the lone backslash kept
+					if strings.HasSuffix(got, "\\") && strings.HasPrefix(v, got[:len(got)-1]) &&
+						strings.HasPrefix(r.RawMessage(), reescaper.Replace(got[:len(got)-1])+"\\") {
+						continue
+					}
 					if i := strings.Index(got, "\n<"); i >= 0 {
 						head := got[:i]
-						if head == v || (r.Kind == "esc" && head == strings.NewReplacer("\n", "\\n", "\t", "\\t").Replace(v)) {
+						if head == v || (r.Kind == "esc" && head == reescaper.Replace(v)) {
 							continue
 						}
 					}
@@ -124,6 +132,22 @@ func JudgeAtLeastOnce(obs *Obs) (fs []Finding, info map[string]int) {
 			add("queue-file-undecodable", "queue file does not decode as the chunk it is named after: "+b)
 		}
 	}
+	// what the agent itself reported at error level (a scaled-down timeout that expired on a starved machine shows here)
+	agentLog := ""
+	{
+		var ls []string
+		for gi, g := range obs.Gens {
+			for _, l := range g.AgentLog {
+				if len(ls) < 8 {
+					ls = append(ls, fmt.Sprintf("gen%d: %s", gi, cut200(l)))
+				}
+			}
+		}
+		if len(ls) > 0 {
+			agentLog = "; agent error log: " + strings.Join(ls, " || ")
+		}
+		info["agent_error_log_lines"] = len(ls)
+	}
 	// at-least-once, per output
 	for o := 1; o <= sc.Outputs; o++ {
 		name := fmt.Sprintf("out%d", o)
@@ -164,15 +188,36 @@ func JudgeAtLeastOnce(obs *Obs) (fs []Finding, info map[string]int) {
 			if sc.Family == "overflow" && dropped > 0 {
 				info["lost_in_counted_overflow"] += len(missing)
 			} else {
-				add("lost", fmt.Sprintf("%s: %d of %d expected records are neither in an acknowledged chunk nor in the queue directory after the last stop (dropped_chunks_total=%d), e.g. %v",
-					name, len(missing), nExp, int(dropped), ex))
+				// where each of them was last seen: receptions at the upstream and queue files after each stop
+				var trace []string
+				for _, st := range ex {
+					var tr []string
+					for _, d := range obs.Up {
+						if d.Output == name && d.Stamp == st {
+							tr = append(tr, fmt.Sprintf("up gen%d conn%d chunk %s acked=%v", d.Gen, d.UpConn, d.ChunkID, d.Acked))
+						}
+					}
+					for gi, g := range obs.Gens {
+						for _, d := range g.Disk {
+							if d.Output == name && d.Stamp == st {
+								tr = append(tr, fmt.Sprintf("file after stop %d: %s/%s", gi, d.Dir, d.ChunkID))
+							}
+						}
+					}
+					if len(tr) == 0 {
+						tr = []string{"never seen at the upstream or in a queue file"}
+					}
+					trace = append(trace, st+": "+strings.Join(tr, ", "))
+				}
+				add("lost", fmt.Sprintf("%s: %d of %d expected records are neither in an acknowledged chunk nor in the queue directory after the last stop (dropped_chunks_total=%d), e.g. %v; trace: %s",
+					name, len(missing), nExp, int(dropped), ex, strings.Join(trace, " | ")+agentLog))
 			}
 		}
 	}
 	// bounded progress after the faults stop
 	for gi, g := range sc.Gens {
 		if g.WaitAcked && gi < len(obs.Gens) && !obs.Gens[gi].WaitOK {
-			add("not-acked-in-bound", fmt.Sprintf("gen %d: upstream healthy and fault script exhausted, but not every expected record was acknowledged within %s", gi, 4*obs.Bound+3*time.Second))
+			add("not-acked-in-bound", fmt.Sprintf("gen %d: upstream healthy and fault script exhausted, but not every expected record was acknowledged within %s%s", gi, 4*obs.Bound+3*time.Second, agentLog))
 		}
 	}
 	retrans := 0
@@ -193,6 +238,13 @@ func JudgeAtLeastOnce(obs *Obs) (fs []Finding, info map[string]int) {
 	}
 	info["generations_with_recovery"] = recovered
 	return fs, info
+}
+
+func cut200(s string) string {
+	if len(s) > 200 {
+		return s[:200] + "..."
+	}
+	return s
 }
 
 func cut(s string) string {
